@@ -80,4 +80,22 @@ CHECKS.update({
 })
 ENGINES += [{"name": "sparql", "path": "spec/Sparql.tla spec/SparqlPaths.tla spec/SparqlUpdate.tla spec/TraceQuery.tla spec/TraceUpdate.tla spec/MCSparql*.tla harness/rvf/sparql_replay.py harness/rvf/update_replay.py harness/rvf/qgen.py",
              "serves_properties": ["C04", "C08", "C10", "C11", "C15"], "kind_free_text": "W3C SPARQL semantics transcribed to TLA+; TLC as the evaluator judging rdflib's answers"}]
+_TD = "TLA+ definition of RDF graph / dataset isomorphism (GraphIso.tla, brute-force bijection search, laws checked by TLC) + TLC validation of every recorded round trip / parse / comparison (trace specs TraceDocs, TraceIso); known findings as witness classes"
+_ND = _NOTE_COMMON + " Strings are covered per character class (20 classes, 1-2 representatives each), not per code point. The structured input space (term classes, list shapes) is enumerated in Python; blank-node topologies are exported by TLC."
+CHECKS.update({
+    "C03": {"engine": "documents", "technique": _TD, "note": _ND,
+            "level": ("~600 graph shapes (literal class-strings x 4 flavours, typed literals, IRIs stressing prefix splitting, all blank-node digraphs on <= 3 nodes with / without entry, 19 rdf:List shapes incl. malformed and cyclic) x 8 syntaxes x options are serialised and "
+                      "re-parsed under a watchdog; TLC validates isomorphism with literal identity (HexTuples may identify plain and xsd:string), termination and XML / JSON well-formedness.")},
+    "C06": {"engine": "documents", "technique": _TD, "note": _ND,
+            "level": ("Every distribution of 4 triples over default / two IRI-named / one bnode-named graph (625) plus shared-triple, shared-bnode, name-as-node and hostile-literal datasets x 6 quad formats; RDF Patch diffs for all ordered pairs of a sample incl. the empty dataset; "
+                      "TLC validates dataset isomorphism with one bijection across all graphs and graph names / equality with the patch target.")},
+    "C12": {"engine": "documents", "technique": _TD, "note": _ND,
+            "level": ("Sequences of 1-3 parse calls (5 + 3 abstract documents x 9 syntaxes) into Graph / Dataset (union on, off) / ConjunctiveGraph with and without pre-existing content (incl. blank nodes whose ids equal document labels); after each call TLC checks that "
+                      "no quad disappeared and that the sink equals the old content plus the document with its labels mapped one-to-one onto blank nodes that did not exist before.")},
+    "C14": {"engine": "documents", "technique": _TD, "note": _NOTE_COMMON + " Oracle is an n! bijection search: graphs are limited to 6 blank nodes.",
+            "level": ("TLC checks that Iso is reflexive, relabelling-invariant and edge-sensitive on all 255 graphs with <= 4 edges on 3 blank nodes; those graphs, 4-node graphs and 20 hard families (cycles, 2*C3 vs C6, K2,2, K3,3, prism, two-coloured C6 ...) are compared through isomorphic(), "
+                      "to_isomorphic ==, to_canonical_graph, graph_diff, skolemise/de-skolemise and digest partitions; every answer is validated by TLC against the brute-force definition.")},
+})
+ENGINES += [{"name": "documents", "path": "spec/GraphIso.tla spec/TraceDocs.tla spec/TraceIso.tla spec/MCGraphIso.tla harness/rvf/doc_replay.py harness/rvf/iso_replay.py harness/rvf/shapes.py harness/rvf/docwriters.py harness/rvf/classes.py",
+             "serves_properties": ["C03", "C06", "C12", "C14"], "kind_free_text": "graph isomorphism in TLA+ as the oracle for round trips, parses and rdflib.compare"}]
 NOT_BUILT: dict = {}
